@@ -4,12 +4,13 @@ From W Require Import model.Base model.Engine spec.Queue.
 From Coq Require Import ZArith ZifyBool ZifyN.
 
 (* ------------------------------------------------------------------ C16 *)
-Definition batch_name_ok (c : Cfg) (o : op) : bool :=
-  match o with OBatch t _ => name_ok c t | _ => true end.
-
-Lemma batch_backend c s t es : name_ok c t = true -> batch c Fd s t es = batch c Mmap s t es.
+(* the one place where the backends' code paths differ observably (header copy panics on the
+   FD path, InvalidData on the mmap path) is behind the argument check: unreachable *)
+Lemma batch_backend c s t es : batch c Fd s t es = batch c Mmap s t es.
 Proof.
-  intros Hn. unfold batch. rewrite Hn. cbn [negb].
+  unfold batch, appendable.
+  destruct (c_max_alloc c <? _); [reflexivity|].
+  destruct (name_ok c t) eqn:Hn; cbn [negb]; [|reflexivity].
   destruct (ensure_writer c s t) as [s1 w].
   destruct (c_max_entries c <? N.of_nat (length es)); [reflexivity|].
   destruct (c_max_bytes c <? sum_need c es); [reflexivity|].
@@ -19,27 +20,16 @@ Proof.
   destruct okp; reflexivity.
 Qed.
 
-Lemma step_backend c m s o : batch_name_ok c o = true ->
+Lemma step_backend c m s o :
   step {| v_cfg := c; v_mode := m; v_backend := Fd |} s o = step {| v_cfg := c; v_mode := m; v_backend := Mmap |} s o.
-Proof. destruct o; cbn; intros H; try reflexivity. now apply batch_backend. Qed.
+Proof. destruct o; cbn; try reflexivity. apply batch_backend. Qed.
 
-Theorem run_backend c m : forall ops s, forallb (batch_name_ok c) ops = true ->
+Theorem run_backend c m : forall ops s,
   run {| v_cfg := c; v_mode := m; v_backend := Fd |} s ops = run {| v_cfg := c; v_mode := m; v_backend := Mmap |} s ops.
 Proof.
-  induction ops as [|o ops IH]; intros s H; [reflexivity|].
-  cbn [forallb] in H. apply andb_prop in H. destruct H as [Ho Hr].
-  cbn [run]. rewrite (step_backend c m s o Ho).
+  induction ops as [|o ops IH]; intros s; [reflexivity|].
+  cbn [run]. rewrite (step_backend c m s o).
   destruct (step _ s o) as [s' r]. now rewrite IH.
-Qed.
-
-(* where the two backends do differ: a batch on a topic whose name does not fit the header *)
-Lemma backend_differs_on_long_name :
-  exists c s t es, batch c Fd s t es <> batch c Mmap s t es.
-Proof.
-  exists {| c_block := 4096; c_bpf := 8; c_max_alloc := 16384; c_hdr := 256; c_max_entries := 2000;
-            c_max_bytes := 262144; c_small := 128; c_overflow_checks := true |}, init,
-         {| t_id := 1; t_nlen := 217 |}, [{| e_pid := 0; e_len := 1 |}].
-  vm_compute. discriminate.
 Qed.
 
 (* ------------------------------------------------------------------ C03: cap and budget *)
